@@ -536,6 +536,8 @@ class Oracle(object):
         if split:
             lo, hi = split[o]
             lo = max(lo, mn)
+        elif mn == 0:
+            lo, hi = 1, int(M / ap['max_resource_partitions'])      # a reservation holds at least one machine
         else:
             lo, hi = mn, int(M / ap['max_resource_partitions'])
         self.probe('reservation')
@@ -573,6 +575,7 @@ class Oracle(object):
             hsched=[o.name for o in h.observations['scheduled']],
             status=dict(self.prev_status), queue=list(self.prev_queue), tuse=sim.instrument.telescope_use,
             prov=sch.provision_ingest, sstat=sch.schedule_status.value,
+            dep={n: L['dep'] for n, L in self.ob.items()},
             nopen=sum(len(x) for x in self.open_exec.values()), inflight=self.inflight)
 
     def on_pause(self, k):
@@ -600,6 +603,21 @@ class Oracle(object):
         if self.real_monitor:
             self._c12()
             self._c13(completed)
+        if res.status == 'budget' and self.adv:
+            # F2 run that neither completed nor was rejected with an error: proposals that must merely be
+            # *skipped* (busy / ingest / duplicate machine) may not lose a task.  Cold-storage parking (the
+            # known C05 finding) is excluded by state, everything else is a C04 failure.
+            b = self.sim.buffer
+            from .scenario import feasible as _feasible
+            if _feasible(self.sc) and not b.cold[0].observations['stored'] and b.cold[0].observations['transfer'] is None:
+                miss = []
+                for n in self.obsnames:
+                    if self.ob[n]['at_spawn']:
+                        done = {self.node_of(e['tid']) for e in self.execs if not e['ingest'] and self.obs_of(e['tid']) == n}
+                        miss += ['%s_%s' % (n, x) for x in sorted(set(self.v.nodes(n)) - done)]
+                self.viol('C04', 'never_completes_under_adversarial_proposals',
+                          'no error and no completion by t=%s (bound %s); tasks never executed: %s; fired %s' % (
+                              self.env.now, res.bound, miss[:8], dict(self.fs.fired) if self.fs else {}))
         if not completed and res.status == 'exc' and not self.adv:
             from .scenario import feasible
             if feasible(self.sc):
@@ -905,6 +923,8 @@ class Oracle(object):
             avail = len(s['avail'])
             ning = len(s['ingest'])
             promised = 0
+            # hot-buffer space already owed to observations that are still streaming in at S_t
+            owed = sum(v.obs[n]['vol'] - s['dep'].get(n, 0) for n in self.obsnames if s['status'].get(n) == 'RUNNING')
             if len(names) > 1:
                 self.probe('two_starts_same_step')
             for o in sc['obs']:
@@ -925,10 +945,14 @@ class Oracle(object):
                     if w['vol'] > s['hot'] + EPS or w['vol'] > s['cold'] + EPS:
                         self.viol('C08', 'no_buffer_room_at_start', '%s volume %s, hot free %s cold free %s' % (
                             n, w['vol'], s['hot'], s['cold']))
+                    elif w['vol'] > s['hot'] - owed + EPS:
+                        self.viol('C08', 'buffer_room_already_promised', '%s volume %s, hot free %s of which %s is owed to '
+                                  'observations still being ingested or admitted in this pass' % (n, w['vol'], s['hot'], owed))
                     if s['hot'] < sc['hot']['capacity'] or avail < self.nM:
                         self.probe('start_under_load')
                     use += w['demand']
                     promised += w['ingest']
+                    owed += w['vol']
                 elif finished.get(n) == t:
                     use -= w['demand']
         # on time when idle
